@@ -360,6 +360,27 @@ class Report:
         return 1 if self.violations else 0
 
 
+def coqchk_property(ctx, pid):
+    """thorough tier: the independent checker re-checks the compiled property file and everything it depends on"""
+    cmd = "timeout 2400 coqchk -silent -o -Q theories GG GG.Properties.%s 2>&1" % pid
+    lock = open(os.path.join(CACHE, "lock"), "w")
+    fcntl.flock(lock, fcntl.LOCK_SH)
+    try:
+        rc, out, err = sh(cmd, cwd=ctx.coqdir, timeout=2500)
+    finally:
+        fcntl.flock(lock, fcntl.LOCK_UN)
+        lock.close()
+    log = out + err
+    m = re.search(r"\* Axioms:(.*?)\n\s*\n\* Constants/Inductives relying on type-in-type:(.*?)\n\s*\n\* Constants/Inductives relying on unsafe \(co\)fixpoints:(.*?)\n\s*\n\* Inductives whose positivity is assumed:(.*?)(\n\s*\n|$)", log, flags=re.S)
+    res = {"ran": True, "exit_status": rc, "axioms": None, "type_in_type": None, "unsafe_fixpoints": None, "assumed_positivity": None}
+    if m:
+        res.update({"axioms": m.group(1).strip(), "type_in_type": m.group(2).strip(), "unsafe_fixpoints": m.group(3).strip(), "assumed_positivity": m.group(4).strip()})
+    res["ok"] = rc == 0 and m is not None and all(res[k] == "<none>" for k in ("axioms", "type_in_type", "unsafe_fixpoints", "assumed_positivity"))
+    if not res["ok"]:
+        res["log_tail"] = log[-1500:]
+    return res
+
+
 def obligation_gate(rep, ctx, pid, found_input):
     """Verdict step A of DESIGN 2.3: if the Coq obligations of the property do not all check and the
     correspondence search found no failing input, report the violation naming the theorem."""
@@ -369,6 +390,14 @@ def obligation_gate(rep, ctx, pid, found_input):
         rep.violation({"property": pid, "kind": "build", "what": "the repository or the harness no longer builds against it",
                        "log": ctx.build_error[-3000:]}, "no-failing-input-found")
         return cq
+    if ctx.tier == "thorough" and cq["ok"]:
+        ck = coqchk_property(ctx, pid)
+        rep.cov["coqchk"] = ck
+        if not ck["ok"]:
+            cq["ok"] = False
+            cq["failed_theorem"] = "(coqchk does not accept Properties/%s.vo or reports axioms / switched-off checks)" % pid
+            cq["log"] = ck.get("log_tail", "")
+            rep.cov["discharged"] = 0
     if not cq["ok"] and not found_input:
         rep.violation({"property": pid, "kind": "proof-obligation",
                        "theorem": cq["failed_theorem"], "file": cq["file"],
